@@ -81,7 +81,7 @@ class Prop:
     thorough_runs = 300000
     chunk = 100
     time_unit = "simulated seconds"
-    rule = ("seeded sets of 1-4 relative / absolute (aware datetimes, also in zones other than UTC) / immediate schedules (delays 0-50 ms) on TimeoutScheduler, NewThreadScheduler, "
+    rule = ("seeded sets of 1-4 relative / absolute (aware datetimes, also in zones other than UTC) / immediate schedules (delays 0-50 ms, one in eight an hour or days long or already past) on TimeoutScheduler, NewThreadScheduler, "
             "ThreadPoolScheduler (simulated executor) and EventLoopScheduler, with a separate controlled thread cancelling some of them at "
             "seeded simulated instants; 0-3 forced pre-emptions (site-first sampling over a dry run), spurious wake-ups and clock drift. "
             "Checked on the simulated clock: no action starts before its due time; an action whose dispose() returned strictly before its "
@@ -96,10 +96,10 @@ class Prop:
         if rng.random() < 0.1:
             return {"kind": "immediate", "delays": [rng.choice([None, 0, 0, 1, 5]) for _ in range(rng.randrange(1, 4))], "sched": {"seed": rng.getrandbits(32), "k": 0}}
         n = rng.randrange(1, 5)
-        acts = [{"id": i, "how": rng.choice(["rel", "abs", "abs", "imm"]), "ms": rng.choice([0, 1, 5, 10, 10, 20, 50]),
+        acts = [{"id": i, "how": rng.choice(["rel", "abs", "abs", "imm"]), "ms": rng.choice([0, 1, 5, 10, 10, 20, 50] * 3 + [-5, 3600000, 86400050, 90061001, 172800007]),  # also long (hours, days) and past-due delays: simulated time is free
                  "tz": rng.choice([None, None, -5, 3, 5.5])} for i in range(n)]  # abs: the same instant written in another time zone
         cancels = [{"id": rng.randrange(n), "after_ms": rng.choice([0, 1, 2, 4, 5, 9, 10, 19, 30])} for _ in range(rng.randrange(0, 4))]
-        return {"kind": rng.choice(KINDS), "actions": acts, "cancels": cancels, "sched": th.gen_sched(rng, spurious_p=0.3, drift_p=0.4, sweep_p=0.02)}
+        return {"kind": rng.choice(KINDS), "actions": acts, "cancels": cancels, "sched": th.gen_sched(rng, spurious_p=0.3, drift_p=0.4, sweep_p=0.02, stall_p=0.3)}
 
     def execute(self, sc):
         if sc["sched"].get("sweep") and "cps" not in sc:
